@@ -65,7 +65,7 @@ TEXTS = {
                 "API of the finished ontology (every resolving iterator of every term and record, each of which panics on an id that does not "
                 "resolve) returns. The check runs every "
                 "generated call history twice on the real Builder (with and without its failing calls), demands identical read-API dumps, "
-                "exact error codes (fails iff an absent term is named), a panic-free complete read-API walk, and agreement with the model. NO DANGLING IDS ON EVERY CONSTRUCTION PATH: C15_wellformed_ontologies_walk_returns (any ontology with exact caches, children = parents^-1, inherited annotation sets and records naming stored terms), hence C15_jax_ontologies_walk_returns, C15_sub_ontologies_walk_returns, C15_binary_ontologies_walk_returns. C15_every_constructed_ontology_walk_returns: the same for the inductive closure of all public constructors.",
+                "exact error codes (fails iff an absent term is named), a panic-free complete read-API walk, and agreement with the model. NO DANGLING IDS ON EVERY CONSTRUCTION PATH: C15_wellformed_ontologies_walk_returns (any ontology with exact caches, children = parents^-1, inherited annotation sets and records naming stored terms), hence C15_jax_ontologies_walk_returns, C15_sub_ontologies_walk_returns, C15_binary_ontologies_walk_returns. C15_every_constructed_ontology_walk_returns: the same for the inductive closure of all public constructors. C15_annotate_on_stored_term_succeeds / C15_annotate_on_absent_term_is_rejected: annotate_* is rejected only for an absent term (Err(DoesNotExist)); on a stored term it returns Ok.",
         "design_ref": "DESIGN.md §4 C15, §9", "note": NOTE_COMMON, "technique": TECH,
     },
     "C16": {
@@ -234,7 +234,7 @@ TEXTS = {
                 "OMIM / ORPHA ids of a set are the union over its members (a sorted set), category counts count the members per category, the "
                 "aggregated information content is calculate(records, size of the union) for genes and OMIM. spec_C13 "
                 "states child_nodes, modifier filter, unions of annotation ids, category counts and aggregated IC against the observation and "
-                "is evaluated on the crate's observation of every generated set; model and crate are diffed.",
+                "is evaluated on the crate's observation of every generated set; model and crate are diffed. TOTALITY (C13_operations_return): on a set whose members are terms of the ontology every operation returns.",
         "design_ref": "DESIGN.md §4 C13", "note": NOTE_COMMON, "technique": TECH,
     },
     "C14": {
@@ -282,7 +282,7 @@ TEXTS = {
                 "exactly the added and removed parents (terms) and the old/new values; (b) about the Gallina transcription of comparison.rs, "
                 "for ALL ontologies: added characterised, swapping arguments swaps added with removed, comparing a well-formed ontology with "
                 "itself yields the empty report. The crate's reports for compare(old,new), compare(new,old), compare(old,old) and "
-                "compare(old, reload(old)) are checked against the reference, against the swap, and diffed against the transcription. ROUND TRIP (C18_builder_roundtrip_compares_equal, C18_jax_roundtrip_compares_equal, via C18_model_compare_equivalent_empty and the C07 theorems): comparing a Builder-built or JAX-loaded ontology with what from_bytes returns for its as_bytes output yields the empty report, for any record order in the file, when term and gene names fit the one-byte length field.",
+                "compare(old, reload(old)) are checked against the reference, against the swap, and diffed against the transcription. ROUND TRIP (C18_builder_roundtrip_compares_equal, C18_jax_roundtrip_compares_equal, via C18_model_compare_equivalent_empty and the C07 theorems): comparing a Builder-built or JAX-loaded ontology with what from_bytes returns for its as_bytes output yields the empty report, for any record order in the file, when term and gene names fit the one-byte length field. C18_model_compare_returns: the comparison returns on any two well-formed ontologies.",
         "design_ref": "DESIGN.md §4 C18", "note": NOTE_COMMON, "technique": TECH,
     },
     "C20": {
